@@ -1,7 +1,38 @@
 """Registry of the property checks."""
-from . import c01
+from . import c01, numsuite as ns
+
+COMMON = ["Gx.exec_agree", "Gx.exec_progress", "Gx.eval_congr"]
+
+
+def P(module, theorems, pins, run, check_case, level="proof", search=None, **kw):
+    return dict(module=module, theorems=theorems, pins=pins, level=level, run=run, check_case=check_case,
+                search=search or run, **kw)
+
 
 PROPS = {
-    "C01": dict(module=c01.MODULE, theorems=c01.THEOREMS, pins=c01.PINS, level="proof",
-                run=c01.run, check_case=c01.check_case, search=c01.search),
+    "C01": P(c01.MODULE, c01.THEOREMS, c01.PINS, c01.run, c01.check_case),
+    "C04": P("GotranxProofs.Properties.C04",
+             ["Gx.C04.index_bijective", "Gx.C04.slotOf_iff", "Gx.C04.layout_counts", "Gx.C04.init_sound", "Gx.C04.init_unknown_key",
+              "Gx.C04.monitor_slots", "Gx.C04.rhs_slots", "Gx.C04.formals_are_permutations", "Gx.checkMonitor_sound", "Gx.checkRhs_sound"] + COMMON,
+             ["Gx.Pins.orders_are_permutations", "Gx.Pins.argument_maps", "Gx.Pins.removal_flags"],
+             ns.make_run(ns.c04_case, 14, 400), ns.c04_case),
+    "C05": P("GotranxProofs.Properties.C05",
+             ["Gx.C05.euler_eq_states_plus_dt_rhs", "Gx.C05.eval_eulerStore", "Gx.C05.eval_euler_printed", "Gx.C05.euler_dt_zero",
+              "Gx.C05.inputs_untouched", "Gx.C05.euler_aliases", "Gx.checkScheme_sound", "Gx.checkRhs_sound_named"] + COMMON,
+             ["Gx.Pins.scheme_aliases", "Gx.Pins.scheme_members_accepted"],
+             ns.make_run(ns.c05_case, 40, 1500, ns.scheme_cfg), ns.c05_case),
+    "C06": P("GotranxProofs.Properties.C06",
+             ["Gx.C06.eval_rl_store", "Gx.C06.rl_fallback", "Gx.C06.rl_exponential", "Gx.C06.rlStore_guarded", "Gx.C06.rlStore_zero",
+              "Gx.C06.diff_var_other", "Gx.C06.diff_var_self", "Gx.C06.grl_aliases_and_delta", "Gx.checkScheme_sound"] + COMMON,
+             ["Gx.Pins.scheme_aliases", "Gx.Pins.default_delta", "Gx.Pins.rl_always_guarded"],
+             ns.make_run(ns.c06_case, 45, 1500, ns.scheme_cfg, extra=ns.c06_family), ns.c06_case),
+    "C07": P("GotranxProofs.Properties.C07",
+             ["Gx.C07.hybrid_empty_eq_euler", "Gx.C07.hybrid_all_eq_grl", "Gx.C07.hybrid_foreign_names", "Gx.C07.hybrid_slotwise",
+              "Gx.C07.bodySlots_congr", "Gx.C07.rlStore_nonstiff", "Gx.C07.rlStore_stiff", "Gx.C07.hybrid_aliases", "Gx.checkScheme_sound"] + COMMON,
+             ["Gx.Pins.scheme_aliases"],
+             ns.make_run(ns.c07_case, 30, 1200, ns.scheme_cfg), ns.c07_case),
+    "C12": P("GotranxProofs.Properties.C12",
+             ["Gx.C12.unused_equiv_rhs", "Gx.C12.removed_never_read", "Gx.C12.mentioned_complete", "Gx.checkRhs_sound_named", "Gx.checkRhs_progress"] + COMMON,
+             ["Gx.Pins.removal_flags"],
+             ns.make_run(ns.c12_case, 30, 1200, ns.unused_cfg), ns.c12_case),
 }
